@@ -114,6 +114,26 @@ def collect(rep: Report, prop, pairs, nontrivial=None):
         for v in obs.get("viol", {}).get(prop, []):
             rep.violation({**v["key"], "class": obs["cfg_class"]} if False else v["key"], v["detail"],
                           replay={"kind": "campaign", "item": item, "mode": obs["mode"]})
+    # H-cov: executable lines of the repository reached by this run's workload
+    reached = collections.defaultdict(set)
+    for item, obs in pairs:
+        for fl in obs.get("cov", []):
+            f, l = fl.rsplit(":", 1)
+            reached[f].add(int(l))
+    if reached:
+        from .. import hooks
+        ex = hooks.executable_lines()
+        core = {}
+        alg = [0, 0]
+        for f, lines in sorted(ex.items()):
+            r = len(reached.get(f, set()) & lines)
+            if "/" not in f and "\\" not in f:
+                core[f] = [r, len(lines)]
+            else:
+                alg[0] += r
+                alg[1] += len(lines)
+        core["<84 algorithm packages>"] = alg
+        rep.extra["executable_lines_reached"] = core
     rep.extra["outcomes"] = dict(counters)
     rep.extra["optimizers_observed"] = len(opts_seen)
     rep.extra["task_kinds"] = dict(kinds)
